@@ -539,6 +539,8 @@ impl Scenario for Sched {
         if rng.chance(1, 3) {
             cfg.hbfs = (3, 8);
         }
+        // stave mode: several FEE IDs may share a link number (a link filter then selects several validators)
+        cfg.share_link_ids = stave && rng.chance(1, 2);
         let mut st = gen_conforming(&cfg, &mut rng);
         let n_faults = if rng.chance(1, 5) { 0 } else { rng.range(1, 6) };
         let mut label = String::new();
@@ -713,11 +715,13 @@ impl Scenario for Sched {
             if let Some(p0) = w.pkts.first() {
                 let f = Filter::Link(w.pkts[rng.usize_below(w.pkts.len())].rdh.link_id);
                 let _ = p0;
-                let mut pre = s(&["-o", "@OUT@"]);
+                // (the destination is a file or, 1 in 2, the word `stdout`)
+                let to_stdout = rng.chance(1, 2);
+                let mut pre = s(&["-o", if to_stdout { "stdout" } else { "@OUT@" }]);
                 pre.extend(f.args());
                 pre.extend(parts);
                 parts = pre;
-                label.push_str(" +ignored -o");
+                label.push_str(if to_stdout { " +ignored -o stdout" } else { " +ignored -o" });
             }
         }
         let im = pick_input_mode(&mut rng);
